@@ -71,7 +71,7 @@ def controlStep (control : Nat) (needProps needDictReset : Bool) : ControlAction
     `min(in_size - in_pos, left, limit - pos)` bytes. Returns the number copied. -/
 def appendSlice (src : ByteArray) : Nat → Nat → ByteArray → ByteArray
   | 0, _, h => h
-  | n + 1, off, h => appendSlice src n (off + 1) (h.push (src.data.getD off 0))
+  | n + 1, off, h => appendSlice src n (off + 1) (h.push (if hlt : off < src.size then src[off] else 0))
 
 def dictWrite (s : St) (left : Nat) : Nat × St :=
   let n := min (min (s.inp.size - s.inPos) left) s.dp.avail
@@ -95,7 +95,7 @@ def lzma2Loop : Nat → St → Ret × St
   | 0, s => (.progError, s)
   | fuel + 1, s =>
     if !(s.inPos < s.inp.size || s.l2.seq == .lzma) then (.ok, s) else
-    let byte : Nat := (s.inp.data.getD s.inPos 0).toNat     -- in[*in_pos] (only used in the states that need input)
+    let byte : Nat := (if hlt : s.inPos < s.inp.size then s.inp[s.inPos] else 0).toNat   -- in[*in_pos] (only used in the states that need input)
     match s.l2.seq with
     | .control =>
       let s := { s with inPos := s.inPos + 1 }
